@@ -1,6 +1,6 @@
 """C41 -- Functions, splines and smooth steps are self-consistent (step family, Step and Sinusoid function objects only).
 
-Splines (GCVSPL), the Polynomial / Linear function objects' loops and anything evaluated at a point are NOT decided.  The smooth-step
+Splines (GCVSPL), the Polynomial function object's loops and anything evaluated at a point are NOT decided.  The smooth-step
 helpers are polynomials written out in the source, and 'reports derivatives that are the true derivatives of its values' is, for them, an
 identity between polynomials -- decided here by normalising each helper's return expression to a polynomial in x (exact rational
 coefficients) and differentiating:
@@ -12,7 +12,10 @@ coefficients) and differentiating:
  TABLE     Function_<T>::Step returns y0 / y1 outside the transition and zero derivatives there, y0 + yr * stepAny(0, 1, x0, 1/(x1-x0), x)
            inside, and for derivative order k the k-th stepAny derivative times yr; Function::Sinusoid's order-k derivative is
            (+,+,-,-)[k mod 4] * a * w^k * (sin, cos)[k mod 2](w t + p) in every explicit case, and the general branch builds the same three
-           factors from the order."""
+           factors from the order.
+ LINEAR    Function_<T>::Constant returns its stored constant and zero for every derivative; Function_<T>::Linear's value is
+           sum_i x[i]*c[i] + c[x.size()] (same index on both factors, index from 0 below x.size(), accumulator from zero), its first derivative
+           with respect to component k is c[k] and every higher derivative is zero."""
 from fractions import Fraction
 from ..facts import extract, units_matching, Program, sx_find, sx_str
 from ..match import call_args, var_of, field_of, expand_locals, value_sets
@@ -243,19 +246,21 @@ def _factors(x):
 
 
 def _order_cases(f, ordv):
-    """{k: block} for the blocks that return while the derivative order is known to be exactly the literal k (switch case or if-chain),
+    """ordv: name of the local holding the derivative order, or a predicate recognising the expression that is the order.
+    {k: block} for the blocks that return while the derivative order is known to be exactly the literal k (switch case or if-chain),
     and the set of blocks where it is known to be none of the explicitly handled literals"""
     lits = set()
+    isord = ordv if callable(ordv) else (lambda x: _strip(x) == ["var", ordv])
     for b, blk in f.blocks.items():
         t = blk.get("term")
         if t and isinstance(t.get("cond"), list):
-            for y in sx_find(t["cond"], lambda y: y[0] == "op" and len(y) == 4 and y[1] in ("==", "!=") and _strip(y[2]) == ["var", ordv] and _strip(y[3])[:1] == ["lit"]):
+            for y in sx_find(t["cond"], lambda y: y[0] == "op" and len(y) == 4 and y[1] in ("==", "!=") and isord(y[2]) and _strip(y[3])[:1] == ["lit"]):
                 lits.add(str(_strip(y[3])[1]))
         lab = blk.get("case")
         if isinstance(lab, list) and lab[:1] == ["lit"]:
             lits.add(str(lab[1]))
     uni = set(lits) | {"<other>"}
-    VS = value_sets(f, lambda x: _strip(x) == ["var", ordv], uni)
+    VS = value_sets(f, isord, uni)
     cases, other = {}, set()
     for b, blk in f.blocks.items():
         if not any(q["k"] == "ret" for q in blk["ev"]):
@@ -360,6 +365,95 @@ def tables(chk, P):
             ok = ok and isinstance(r, list) and r[:2] in (["op", "+"], ["opc", "+"]) and _memname(r[2]) == "m_y0" and bool(sx_find(r[3], lambda y: _memname(y) == "m_yr"))
         chk.judge(ok, "TABLE", "Step:value=y0+yr*stepAny(0,1,x0,1/(x1-x0),x)-between-the-end-values", f.loc, "")
     chk.floor("TABLE", 12)
+
+
+def _zero(x):
+    x = _strip(x)
+    while isinstance(x, list) and x[:1] == ["cast"]:
+        x = _strip(x[-1])
+    return isinstance(x, list) and x[:1] == ["lit"] and str(x[1]) in ("0", "0.0", "0.")
+
+
+def _coef_at(x, fld):
+    """index expression of  this.<fld>[e] / this.<fld>(e), else None"""
+    x = _strip(x)
+    if not isinstance(x, list):
+        return None
+    if x[0] == "idx" and _memname(x[1]) == fld:
+        return x[2]
+    if x[0] in ("opc", "op") and x[1] in ("[]", "()") and _memname(x[2]) == fld and len(x) == 4:
+        return x[3]
+    if x[0] == "call" and str(x[1]).split("::")[-1] == fld and len(x) > 3 and len(x[3]) == 1:
+        return x[3][0]
+    return None
+
+
+def _size_of(x, v):
+    x = _strip(x)
+    while isinstance(x, list) and x[:1] == ["cast"]:
+        x = _strip(x[-1])
+    return isinstance(x, list) and x[0] in ("call", "dcall") and str(x[1]).split("::")[-1] == "size" and sx_find(x, lambda y: y == ["var", v]) != []
+
+
+def linear(chk, P):
+    chk.rule("LINEAR", "Function_<T>::Constant: value is the stored constant, every derivative is zero; Function_<T>::Linear: value = sum_i x[i]*c[i] + c[x.size()], "
+             "the first derivative with respect to component k is c[k] -- the coefficient that multiplies x[k] in the value -- and every higher derivative is zero")
+    def one(suffix, arr=False):
+        fs = [f for f in P.all_fns() if f.name.endswith(suffix) and f.blocks and (not arr or "Array_" in f.id)]
+        return fs[0] if chk.shape(len(fs) == 1, "LINEAR", suffix + ":found", "", "%d" % len(fs)) else None
+    f = one("Constant::calcValue")
+    if f:
+        rets = [r for _, _, r in f.events(lambda q: q["k"] == "ret")]
+        chk.judge(len(rets) >= 1 and all(_memname(r.get("val")) == "value" for r in rets), "LINEAR", "Constant:value=stored-constant", f.loc, "")
+    f = one("Constant::calcDerivative", True)
+    if f:
+        rets = [r for _, _, r in f.events(lambda q: q["k"] == "ret")]
+        chk.judge(len(rets) >= 1 and all(_zero(r.get("val")) for r in rets), "LINEAR", "Constant:every-derivative-zero", f.loc, "; ".join(sx_str(r.get("val")) for r in rets)[:90])
+    f = one("Linear::calcValue")
+    cidx = None
+    if f:
+        acc = [q for _, _, q in f.events(lambda q: q["k"] == "assign" and q.get("op") == "+=" and q.get("lhs") == ["var", "value"])]
+        prods, consts = [], []
+        for q in acc:
+            r = _strip(q["rhs"])
+            if isinstance(r, list) and r[0] in ("op", "opc") and r[1] == "*" and len(r) == 4:
+                prods.append((q, r))
+            else:
+                consts.append((q, r))
+        ok = len(prods) == 1 and len(consts) == 1
+        if ok:
+            q, r = prods[0]
+            xs = [a for a in (r[2], r[3]) if isinstance(_strip(a), list) and _strip(a)[0] in ("op", "opc") and _strip(a)[1] == "[]" and _strip(a)[2] == ["var", "x"]]
+            cs = [_coef_at(a, "coefficients") for a in (r[2], r[3]) if _coef_at(a, "coefficients") is not None]
+            ok = len(xs) == 1 and len(cs) == 1 and _strip(xs[0])[3] == cs[0] and cs[0][:1] == ["var"]
+            cidx = cs[0] if ok else None
+            # the loop runs the index over 0 .. x.size()-1
+            iv = cs[0][1] if ok else None
+            conds = [blk["term"]["cond"] for blk in f.blocks.values() if blk.get("term") and blk["term"].get("k") == "for"]
+            decl0 = [d for _, _, d in f.events(lambda d: d["k"] == "decl" and d.get("var") == iv)]
+            ok = ok and len(conds) == 1 and conds[0][:2] == ["op", "<"] and conds[0][2] == ["var", iv] and _size_of(conds[0][3], "x") and len(decl0) == 1 and _zero(decl0[0].get("init"))
+            k0 = _coef_at(consts[0][1], "coefficients")
+            ok = ok and k0 is not None and _size_of(k0, "x")
+        chk.judge(ok, "LINEAR", "Linear:value=sum(x[i]*c[i],i<x.size())+c[x.size()]", f.loc, "%d products, %d other terms" % (len(prods), len(consts)))
+        v0 = [d for _, _, d in f.events(lambda d: d["k"] == "decl" and d.get("var") == "value")]
+        chk.judge(len(v0) == 1 and _zero(v0[0].get("init")), "LINEAR", "Linear:accumulator-starts-at-zero", f.loc, "")
+    f = one("Linear::calcDerivative", True)
+    if f:
+        dc = "derivComponents"
+        cases_, other_ = _order_cases(f, lambda x: _size_of(x, dc))
+        rets = {b: [q for q in blk["ev"] if q["k"] == "ret"] for b, blk in f.blocks.items()}
+        b1 = cases_.get(1)
+        ok1 = b1 is not None and len(rets[b1]) == 1
+        if ok1:
+            e = _coef_at(rets[b1][0]["val"], "coefficients")
+            e = _strip(e) if e is not None else None
+            ok1 = isinstance(e, list) and e[0] in ("op", "opc") and e[1] == "[]" and e[2] == ["var", dc] and _zero(e[3])
+        chk.judge(ok1, "LINEAR", "Linear:first-derivative=c[derivComponents[0]]", f.loc, sx_str(rets[b1][0]["val"])[:80] if b1 is not None and rets[b1] else "no block for order 1")
+        oth = [r for b in other_ for r in rets[b]]
+        allr = [r for rs in rets.values() for r in rs]
+        chk.judge(len(oth) >= 1 and all(_zero(r["val"]) for r in oth) and len(allr) == len(oth) + (1 if ok1 else 0),
+                  "LINEAR", "Linear:higher-derivatives-zero", f.loc, "%d returns for other orders, %d returns in all" % (len(oth), len(allr)))
+    chk.floor("LINEAR", 6)
 
 
 def _memname(x):
@@ -500,6 +594,7 @@ def run(chk, tier, overlays=()):
     chain(chk, P1)
     tables(chk, P2)
     derived(chk, P2)
+    linear(chk, P2)
 
 
 _S = "SimTKcommon/Scalar/include/SimTKcommon/Scalar.h"
@@ -524,6 +619,14 @@ MUTATIONS = [
          old="            const Real sign = Real(((order/2) & 0x1) ? -1 : 1);", new="            const Real sign = Real((order & 0x1) ? -1 : 1);", expect="TABLE:Sinusoid:general-order"),
     dict(name="seeded (sub-agent): setParameters no longer refreshes the cached direction", file=_FN,
          old="        m_x0 = x0; m_x1 = x1; m_ooxr = 1/(x1-x0); m_sign = sign(m_ooxr); ", new="        m_x0 = x0; m_x1 = x1; m_ooxr = 1/(x1-x0); ", expect="DERIVED"),
+    dict(name="Linear reports its first-derivative coefficient for every order", file=_FN,
+         old="        if (derivComponents.size() == 1)\n            return coefficients(derivComponents[0]);\n        return static_cast<T>(0);", new="        return coefficients(derivComponents[0]);", expect="LINEAR:Linear:higher-derivatives-zero"),
+    dict(name="Linear derivative indexed by the number of derivative components", file=_FN,
+         old="            return coefficients(derivComponents[0]);", new="            return coefficients(derivComponents.size());", expect="LINEAR:Linear:first-derivative"),
+    dict(name="Constant derivative returns the constant", file=_FN,
+         old="                     const Vector& x) const override {\n        return static_cast<T>(0);", new="                     const Vector& x) const override {\n        return value;", expect="LINEAR:Constant:every-derivative-zero"),
+    dict(name="Linear value pairs x[i] with the next coefficient", file=_FN,
+         old="            value += x[i]*coefficients[i];", new="            value += x[i]*coefficients[i+1];", expect="LINEAR:Linear:value"),
     dict(name="Step second derivative uses the first-derivative helper", file=_FN,
          old="          case 2: return d2stepAny(1,m_x0,m_ooxr, x) * m_yr;", new="          case 2: return dstepAny(1,m_x0,m_ooxr, x) * m_yr;", expect="TABLE:Step:derivative-order-2"),
 ]
